@@ -661,6 +661,7 @@ impl<'tcx> Interp<'tcx> {
                             }
                             if let Some(t) = src_tag {
                                 self.tag_whole(st, &db, &ds, &dl, &t);
+                                self.tag_range(st, &db, d0, nn, &t);
                             }
                             return one(Val::unit());
                         }
@@ -1290,6 +1291,20 @@ impl<'tcx> Interp<'tcx> {
         }
     }
 
+    /// mark bytes [d0, d0+n) of the array at `b` as an exact copy of `tag` (proper sub-range)
+    pub fn tag_range(&mut self, st: &mut State, b: &Ptr, d0: i128, n: i128, tag: &str) {
+        if let Val::Arr(arr) = self.read_ptr(st, b) {
+            if d0 >= 0 && n > 0 && ((d0 + n) as u64) <= arr.len && !(d0 == 0 && n as u64 == arr.len) && b.frame != STATICS {
+                let mut r = (*arr).clone();
+                let (lo, hi) = (d0 as u64, (d0 + n) as u64);
+                r.segs.retain(|s| s.1 <= lo || s.0 >= hi);
+                r.segs.push((lo, hi, Rc::from(tag)));
+                r.segs.sort();
+                st.refine_at(b, Val::Arr(Rc::new(r)));
+            }
+        }
+    }
+
     /// provenance of the byte range [s0, s0+n) of the array at `sb`: its own tag when the range is the
     /// whole tagged array, a range of a root input buffer (never written by the library) otherwise
     pub fn source_tag(&self, st: &State, sb: &Ptr, s0: i128, n: i128) -> Option<String> {
@@ -1299,6 +1314,15 @@ impl<'tcx> Interp<'tcx> {
                     return Some(t.to_string());
                 }
                 return Some(format!("{}[{}..{}]", t, s0, s0 + n));
+            }
+            for (lo, hi, t) in arr.segs.iter() {
+                let (lo, hi) = (*lo as i128, *hi as i128);
+                if lo == s0 && hi == s0 + n {
+                    return Some(t.to_string());
+                }
+                if lo <= s0 && s0 + n <= hi {
+                    return Some(format!("{}[{}..{}]", t, s0 - lo, s0 + n - lo));
+                }
             }
             if sb.frame == 0 {
                 return Some(format!("{}[{}..{}]", self.describe_ptr(sb), s0, s0 + n));
